@@ -504,6 +504,11 @@ def shard(i: int, n: int, tier: str, seed: int) -> Result:
                     res.count('agree_compile')
                 elif want[0] != got[0]:
                     # one side raises: FPCore has no exceptions; counted, judged only when FPy returns and titanfp fails
+                    if want[0] == 'ok' and got[1] in ('SignedOverflow', 'SignedUnderflow', 'OverflowResultError', 'UnderflowResultError'):
+                        # gmpy2's MPFR range traps escaping from titanfp (exp of a huge / hugely negative argument): a limitation of the
+                        # reference evaluator, which has no value to compare with; counted
+                        res.count('titanfp_mpfr_range_trap_not_compared')
+                        continue
                     if want[0] == 'ok':
                         viol('compile', f'titanfp raises {got[1]} on the compiled core where the FPy interpreter returns a value', args=repr(args),
                              fpy=genrun.show(want[1]), kind='titanfp_raises', exception=got[1])
